@@ -209,7 +209,9 @@ def run(rep: Report, repo: Repo):
 
     evaluated = False
     try:
-        evaluated = traversals_evaluated(rep, mod, fns, full=not getattr(rep, '_c17_order_only', False))
+        from kvstatic.core import cached_rules
+        _oo = bool(getattr(rep, '_c17_order_only', False))
+        evaluated = cached_rules(rep, repo, 'c17.traverse', ['circuit'], lambda r: traversals_evaluated(r, mod, fns, full=not _oo), extra=_oo)
     except ModelError as e:
         rep.note(f'C17.traverse: the traversal generators are outside the evaluated subset ({e}); the structural rules decide')
     if not evaluated:
@@ -224,7 +226,8 @@ def run(rep: Report, repo: Repo):
         lines_and_fanin(rep, mod, fns)
     le = False
     try:
-        le = locs_evaluated(rep, mod)
+        from kvstatic.core import cached_rules
+        le = cached_rules(rep, repo, 'c17.locs', ['circuit'], lambda r: locs_evaluated(r, mod))
     except ModelError as e:
         rep.note(f'C17.locs: Circuit._locs is outside the evaluated subset ({e}); the structural rule decides')
     if le:
